@@ -301,7 +301,12 @@ func (q *scriptedQueryer) Subscribe(req *requests.Request, closeCh <-chan struct
 func (u *Upstream) Factory() pebbles.QueryerFactory {
 	client := &http.Client{Transport: u.Net}
 	return func(ctx *planner.PlanningContext, url string) queryer.Queryer {
-		return &scriptedQueryer{MultiOpQueryer: queryer.NewMultiOpQueryer(url, 3000).WithHTTPClient(client), up: u, url: url}
+		q := queryer.NewMultiOpQueryer(url, 3000).WithHTTPClient(client)
+		// like the gateway's default factory: downstream requests live as long as the client's request
+		if ctx != nil && ctx.Request != nil && ctx.Request.Original != nil {
+			q = q.WithContext(ctx.Request.Original.Context())
+		}
+		return &scriptedQueryer{MultiOpQueryer: q, up: u, url: url}
 	}
 }
 
@@ -321,6 +326,19 @@ func (s *WSSub) Send(v interface{}) error {
 	defer s.mu.Unlock()
 	s.conn.SetWriteDeadline(time.Now().Add(2 * time.Second))
 	return wsutil.WriteServerText(s.conn, b)
+}
+
+// SendFragmented sends the message as a fragmented websocket message: a text frame without FIN, then a continuation frame.
+func (s *WSSub) SendFragmented(v interface{}) error {
+	b, _ := json.Marshal(v)
+	s.mu.Lock()
+	defer s.mu.Unlock()
+	s.conn.SetWriteDeadline(time.Now().Add(2 * time.Second))
+	cut := len(b) / 2
+	if err := ws.WriteFrame(s.conn, ws.NewFrame(ws.OpText, false, b[:cut])); err != nil {
+		return err
+	}
+	return ws.WriteFrame(s.conn, ws.NewFrame(ws.OpContinuation, true, b[cut:]))
 }
 
 func (s *WSSub) SendRaw(b []byte) error {
